@@ -40,6 +40,25 @@ var _ = synctest.Wait
 
 // ---- identities -------------------------------------------------------------
 
+// simReqErr is the failure a peer's request ends with while the caller's context is alive. Real
+// transports hand out context-flavoured errors of their own (a shared dial torn down, a stream
+// open that timed out), so a third of the peers fail with a wrapped context.Canceled and a third
+// with a wrapped context.DeadlineExceeded; which one is a function of the peer alone.
+func simReqErr(p peer.ID, what string) error {
+	b := []byte(p)
+	x := 0
+	if len(b) > 0 {
+		x = int(b[len(b)-1]) % 3
+	}
+	switch x {
+	case 1:
+		return fmt.Errorf("sim: %s: stream aborted by the transport: %w", what, context.Canceled)
+	case 2:
+		return fmt.Errorf("sim: %s: transport timeout: %w", what, context.DeadlineExceeded)
+	}
+	return fmt.Errorf("sim: %s", what)
+}
+
 func simPeerID(r *vfRand) peer.ID {
 	buf := make([]byte, 20)
 	for i := range buf {
